@@ -191,6 +191,7 @@ def install(blocks):
 SITES = [
     ("@py statement missing colon", "py-missing-colon"),
     ("@py block not closed", "py-unclosed"),
+    ("<<py block not closed", "py-unclosed"),
     ("@if statement missing colon", "if-missing-colon"),
     ("@endif should not have a colon", "endif-colon"),
     ("@elif statement missing colon", "elif-missing-colon"),
